@@ -747,6 +747,9 @@ func (p *partition) Notify() {
 // or follower, if applicable, unless the partition is in recovery mode or
 // paused.
 func (p *partition) SetLeader(leader string, epoch uint64) error {
+	if verifhook.Enabled {
+		verifhook.Point("partition.setLeader", p.srv.config.Clustering.ServerID, p.Stream, p.Id, leader, epoch) // nolint: errcheck
+	}
 	p.mu.Lock()
 	defer p.mu.Unlock()
 
@@ -1727,6 +1730,9 @@ func (p *partition) sendReplicationRequest(leaderEpoch uint64) (int, error) {
 	)
 	if err != nil {
 		return 0, err
+	}
+	if verifhook.Enabled {
+		verifhook.Point("follower.afterFetch", p.srv.config.Clustering.ServerID, p.Stream, p.Id, leaderEpoch, len(resp.Data)) // nolint: errcheck
 	}
 	return p.handleReplicationResponse(resp), nil
 }
